@@ -105,6 +105,10 @@ func (c *Check) Guard(p *Prog, rule, key string, in ssa.Instruction, desc string
 	return true
 }
 
+// guardLiftScope, when set, restricts the call sites a guard is lifted to (functions of one entry
+// point's call tree).
+var guardLiftScope map[*ssa.Function]bool
+
 func (p *Prog) guardLift(in ssa.Instruction, b Binds, pats []string, depth int) (bool, []string, string, []Atom) {
 	fi := p.Info(in.Parent())
 	facts := fi.FactsWithImports(in)
@@ -153,6 +157,9 @@ func (p *Prog) guardLift(in ssa.Instruction, b Binds, pats []string, depth int) 
 	for _, cs := range callers {
 		if isTestScaffold(cs.Caller) || cs.Instr.Common().IsInvoke() {
 			continue
+		}
+		if guardLiftScope != nil && !guardLiftScope[origin(cs.Caller)] {
+			continue // a rule about one entry point's call tree: other users of a shared helper are not its concern
 		}
 		n++
 		cfi := p.Info(cs.Caller)
